@@ -86,6 +86,7 @@ def runResult (r : R GoVal) (env : Env) (root : String) : String :=
   | .ok v => "ok " ++ canon (marshalRoot env root v)
   | .error e => (match e with
       | .uncompilable w => "uncompilable " ++ w
+      | .unmodelled w => "unmodelled " ++ w
       | .panic w => "panic " ++ w
       | .fuel => "fuel"
       | .noDecl n => "nodecl " ++ n
